@@ -8,6 +8,9 @@ import shutil
 import subprocess
 import sys
 import time
+import warnings
+
+warnings.filterwarnings("ignore", category=SyntaxWarning)
 
 ROOT = os.path.dirname(os.path.dirname(os.path.abspath(__file__)))
 REPO = os.environ.get('IOPT_REPO', '/repo')
